@@ -595,7 +595,7 @@ class Solver:
                 else:
                     self.connect(*tup1[0].solver.pin_mapping[tup1[1]], *tup2)
             elif tup2[0] in solvers:
-                self.connect(*tup1[0], *tup2[0].solver.pin_mapping[tup2[1]])
+                self.connect(*tup1, *tup2[0].solver.pin_mapping[tup2[1]])
         new_mapping = {}
         for pin, tup in old_mapping.items():
             if tup[0] in solvers:
